@@ -103,7 +103,9 @@ class Ctx(object):
     def facts(self, func, kill_on_suspend=True):
         key = (func.qname, kill_on_suspend)
         if key not in self._facts:
-            self._facts[key] = self.cfg(func).must_facts(self.prog, kill_on_suspend=kill_on_suspend)[0]
+            from .cfg import close_facts
+            raw = self.cfg(func).must_facts(self.prog, kill_on_suspend=kill_on_suspend)[0]
+            self._facts[key] = {k: close_facts(v) for k, v in raw.items()}
         return self._facts[key]
 
     # --- results -------------------------------------------------------------
